@@ -225,7 +225,17 @@ def corr_closed_form(res, tier, rng):
         lines.append("ssum %s %d %d | %s" % ("none" if case["dkmax"] is None else case["dkmax"],
                                              int(case["tau"] is not None), n,
                                              " | ".join("%d %s" % (i_, crat(e)) for i_, e in etas)))
+        if i == 2:
+            # the documented way to continue a propagation: the closed form holds for the
+            # states of both calls together
+            t.compute(case["start"] + 1.5 * case["dt"], progress_type="silent")
         dyn = t.compute(cases.end_time(case), progress_type="silent")
+        grid = [case["start"] + k * case["dt"] for k in range(n + 1)]
+        if len(dyn.states) != n + 1 or np.abs(np.array(dyn.times) - np.array(grid)).max() > 1e-12:
+            res.disagree("Tempo returned %d states for %d steps, times %s"
+                         % (len(dyn.states), n, [float(x) for x in dyn.times]), case["desc"])
+            lines.pop()
+            continue
         pt = cases.make_pt(case, unique=bool(i % 2))
         pdyn = oqupy.compute_dynamics(case["system"], initial_state=case["rho0"], process_tensor=pt,
                                       start_time=case["start"], num_steps=n, progress_type="silent")
@@ -321,8 +331,19 @@ def search(res):
         unique = bool(i % 2)       # degeneracy reduction must not matter, also in rotated bases
         for api in ("tempo", "pt"):
             if api == "tempo":
-                states = cases.make_tempo(case, unique=unique, epsrel=1e-10).compute(
-                    cases.end_time(case), progress_type="silent").states
+                tobj = cases.make_tempo(case, unique=unique, epsrel=1e-10)
+                if i % 4 == 2 and n >= 2:
+                    # continued propagation: every returned (time, state) pair must follow the
+                    # solution at ITS time
+                    tobj.compute(case["start"] + 1.5 * dt, progress_type="silent")
+                dyn_ = tobj.compute(cases.end_time(case), progress_type="silent")
+                states = dyn_.states
+                tl = [float(x) for x in dyn_.times]
+                if len(tl) != n + 1 or max(abs(a - (case["start"] + k * dt)) for k, a in enumerate(tl)) > 1e-12:
+                    res.fail("independent-boson:tempo:continued-propagation-times",
+                             {"api": "tempo", "case": case["desc"], "times": tl,
+                              "sequence": "compute(start + 1.5 dt); compute(end)"})
+                    continue
             else:
                 pt = cases.make_pt(case, unique=unique, epsrel=1e-10)
                 states = oqupy.compute_dynamics(case["system"], initial_state=case["rho0"],
